@@ -36,11 +36,17 @@ Theorem C08_question :
 Proof. exact glob_qm_alone. Qed.
 Print Assumptions C08_question.
 
-(* building / running a matcher never fails: the model has no error branch *)
-Theorem C08_total :
-  forall (p s : str), glob_cs p s = true \/ glob_cs p s = false.
-Proof. exact (glob_total N N.eqb STAR QM). Qed.
-Print Assumptions C08_total.
+(* building / running a matcher never fails: that the matcher is a total function into bool is its type (no error branch exists
+   to exclude).  What IS a statement: no pattern is rejected and none is vacuous -- every pattern, whatever characters it is made
+   of ("(a", "[", "\\", "a|b", ...), matches the string obtained by deleting its stars, and nothing shorter. *)
+Theorem C08_every_pattern_matches_something :
+  forall p : str, glob_cs p (witness N N.eqb STAR p) = true.
+Proof. exact (glob_satisfiable N N.eqb N.eqb_eq STAR QM). Qed.
+Print Assumptions C08_every_pattern_matches_something.
+Theorem C08_shortest_match :
+  forall p s : str, glob_cs p s = true -> (List.length (witness N N.eqb STAR p) <= List.length s)%nat.
+Proof. exact (glob_witness_shortest N N.eqb N.eqb_eq STAR QM). Qed.
+Print Assumptions C08_shortest_match.
 
 (* the instance that runs against the implementation: code points, '*' = 42, '?' = 63 *)
 Theorem C08_instance_cs :
